@@ -33,6 +33,8 @@ CFGS = [
     dict(radii=[2], kernel="geometric", orient="directional", normwin=True),
     dict(radii=[2], kernel="harmonic", orient="after", normwin=False, kargs={"normalize": True}),
     dict(radii=[3], kernel="harmonic", orient="directional", normwin=False, kargs={"offset": 1}),
+    dict(radii=[2], kernel="flat", orient="directional", normwin=False, wfun="variable"),
+    dict(radii=[3], kernel="harmonic", orient="after", normwin=False, wfun="variable", wargs={"power": 0.5}),
 ]
 
 
@@ -67,10 +69,13 @@ def run_case(case):
     if mask is not None:
         c2["mask_string"] = mask
         c2["nullify_mask"] = nullify
-    wins = R.expand_windows(cfg["radii"], cfg["orient"], cfg["kernel"], cfg.get("kargs"), cfg.get("mix"))
+    wins = R.expand_windows(cfg["radii"], cfg["orient"], cfg["kernel"], cfg.get("kargs"), cfg.get("mix"),
+                            cfg.get("wfun", "fixed"), cfg.get("wargs"))
     est = build_estimator(kind, c2)
     if not toks:
         return res(rej=True, out="no-tokens")
+    if cfg.get("wfun") == "variable" and not (kept & set(toks)):
+        return res(rej=True, out="variable-window-radii-undefined:no-kept-token")
     if kind == "ngram":
         seqs0 = [R.apply_vocabulary(list(d), kept, mask) for d in corpus]
         if not any(len(s) >= 2 for s in seqs0):
@@ -102,8 +107,10 @@ def run_case(case):
     if kind == "multiset":
         exp, rows, labels, _ = R.multiset_cooccurrence(corpus, wins, cfg["normwin"], kept=kept, mask=mask, nullify=nullify)
     else:
-        exp, rows, labels, _ = R.token_cooccurrence(corpus, wins, cfg["normwin"], kept=kept, mask=mask, nullify=nullify,
-                                                    timed=(kind == "timed"), **extra)
+        exp, rows, labels, amb = R.token_cooccurrence(corpus, wins, cfg["normwin"], kept=kept, mask=mask, nullify=nullify,
+                                                      timed=(kind == "timed"), **extra)
+        if amb:
+            return res(amb=True, out="ambiguous-radius")
     # vocabulary: kept tokens in sorted order, mask as exactly one extra entry with the last index
     tl = est.token_label_dictionary_
     want = {t: i for i, t in enumerate(labels)}
@@ -144,15 +151,17 @@ def _cases(tier, kind):
         pairs = list(itertools.product(docs, repeat=2))
         cfgs = [c for c in CFGS if c["kernel"] != "harmonic"]
     elif kind == "ngram":
+        pass
+    if kind == "ngram":
         docs = sigma("abc", 3)
         pairs = list(itertools.product(docs, repeat=2))
         if tier == "quick":
             pairs = [p for p in pairs if len(p[0]) + len(p[1]) <= 5]
-        cfgs = [c for c in CFGS if c["kernel"] != "geometric"][:3]
-    else:
+        cfgs = [c for c in CFGS if c["kernel"] != "geometric" and not c.get("wfun")][:3]
+    elif kind == "multiset":
         docs = _multiset_docs("quick")
         pairs = [(d,) for d in docs]
-        cfgs = [c for c in CFGS if c["kernel"] != "harmonic" and not (c.get("kargs") or {}).get("offset")]
+        cfgs = [c for c in CFGS if c["kernel"] != "harmonic" and not (c.get("kargs") or {}).get("offset") and not c.get("wfun")]
     for cfg in cfgs:
         for pr in PRUNINGS:
             for mask, nullify in MASKS:
